@@ -12,6 +12,8 @@ import (
 	"verifharness/props/c03"
 	"verifharness/props/c04"
 	"verifharness/props/c05"
+	"verifharness/props/c07"
+	"verifharness/props/c08"
 	"verifharness/props/c12"
 	"verifharness/props/c17"
 	"verifharness/props/c18"
@@ -19,6 +21,8 @@ import (
 )
 
 var props = map[string]func(*core.Ctx) int{
+	"C08": c08.Run,
+	"C07": c07.Run,
 	"C19": c19.Run,
 	"C18": c18.Run,
 	"C12": c12.Run,
